@@ -31,7 +31,7 @@ fn valid_config(installed: bool) -> String {
 fn mutate(ctx: &mut Ctx, m: &[u8], other: &[u8]) -> (Vec<u8>, String) {
     let big = if ctx.tier == Tier::Thorough { 4 << 20 } else { 64 << 10 };
     let n = m.len().max(1);
-    match ctx.pick(18) {
+    match ctx.pick(20) {
         0 => {
             let at = ctx.pick(n + 1);
             (m[..at.min(m.len())].to_vec(), format!("truncate@{at}"))
@@ -124,6 +124,50 @@ fn mutate(ctx: &mut Ctx, m: &[u8], other: &[u8]) -> (Vec<u8>, String) {
             (s.into_bytes(), "valid reply with an unknown message-id".into())
         }
         17 => (m.to_vec(), "unmodified (control)".into()),
+        18 | 19 => {
+            // the text of one leaf element (18) or the value of one attribute (19) is replaced by a
+            // generated value: lengths 0..~300 bytes, ASCII followed by 2-, 3- or 4-byte characters so
+            // that every fixed byte offset falls inside a character for some run
+            let text = String::from_utf8_lossy(m).into_owned();
+            let b = text.as_bytes();
+            let mut spans: Vec<(usize, usize)> = Vec::new();
+            if which_leaf(ctx) {
+                let mut i = 0;
+                while i < b.len() {
+                    if b[i] == b'>' {
+                        if let Some(j) = text[i + 1..].find('<').map(|j| i + 1 + j) {
+                            if j > i + 1 && b.get(j + 1) == Some(&b'/') {
+                                spans.push((i + 1, j));
+                            }
+                            i = j;
+                            continue;
+                        }
+                    }
+                    i += 1;
+                }
+            } else {
+                let mut i = 0;
+                while let Some(k) = text[i..].find("=\"").map(|k| i + k + 2) {
+                    match text[k..].find('"') {
+                        Some(e) => {
+                            spans.push((k, k + e));
+                            i = k + e + 1;
+                        }
+                        None => break,
+                    }
+                }
+            }
+            if spans.is_empty() {
+                return (m.to_vec(), "unmodified (control)".into());
+            }
+            let (a, e) = spans[ctx.pick(spans.len())];
+            let ascii = ctx.pick(140);
+            let wide: &str = *ctx.tape.choose(&["", "é", "日", "😀", " ", "&amp;", "&#x1F600;", "\t"]);
+            let repeat = ctx.pick(60);
+            let value = format!("{}{}", "v".repeat(ascii), wide.repeat(repeat));
+            let old = text[a..e].to_string();
+            (format!("{}{}{}", &text[..a], value, &text[e..]).into_bytes(), format!("value replaced ({} ascii + {} x {:?}) in place of {:?}", ascii, repeat, wide, old.chars().take(24).collect::<String>()))
+        }
         14 => {
             let s = String::from_utf8_lossy(m).replace('>', " junk=\"1\" junk=\"2\">");
             (s.into_bytes(), "duplicate attributes everywhere".into())
@@ -133,6 +177,21 @@ fn mutate(ctx: &mut Ctx, m: &[u8], other: &[u8]) -> (Vec<u8>, String) {
             (s.into_bytes(), "doctype + comments".into())
         }
     }
+}
+
+fn which_leaf(ctx: &mut Ctx) -> bool {
+    ctx.pick(3) != 0
+}
+
+/// a reply carrying a complete <rpc-error> (every optional child present), so that the mutations
+/// reach the error readers too
+fn error_reply(id: &str, x: usize) -> Vec<u8> {
+    reply(
+        id,
+        &format!(
+            "<rpc-error><error-type>application</error-type><error-tag>operation-failed</error-tag><error-severity>error</error-severity><error-app-tag>app-tag</error-app-tag><error-path xmlns:t=\"urn:x\">/t:a/t:b</error-path><error-message xml:lang=\"en\">TAG-{x}-ERR</error-message><error-info><bad-element>foo</bad-element><bad-attribute>bar</bad-attribute><session-id>7</session-id></error-info></rpc-error>"
+        ),
+    )
 }
 
 struct Fake {
@@ -191,7 +250,12 @@ fn run(ctx: &mut Ctx) -> Verdict {
             let permute = ctx.pick(2) == 1;
             let valid_hello = hello_with(&[CAP_BASE10, CAP_JUNOS], "21");
             let valid_hello = &valid_hello[..valid_hello.len() - MARKER.len()];
-            let valid_reply = reply(&format!("{}", x + 1), &format!("<data><t xmlns=\"urn:x\">TAG-{x}-OK</t></data>"));
+            let valid_reply = if target == Target::Reply && ctx.pick(3) == 0 {
+                ctx.count("probe.base_message_is_rpc_error_reply");
+                error_reply(&format!("{}", x + 1), x)
+            } else {
+                reply(&format!("{}", x + 1), &format!("<data><t xmlns=\"urn:x\">TAG-{x}-OK</t></data>"))
+            };
             let valid_reply = &valid_reply[..valid_reply.len() - MARKER.len()];
             let (mutated, what) = if target == Target::Hello { mutate(ctx, valid_hello, valid_reply) } else { mutate(ctx, valid_reply, valid_hello) };
             ev!(ctx, "{target:?} n={n} x={x} permute={permute}: {what}");
@@ -330,7 +394,7 @@ pub static C14: PropSpec = PropSpec {
     runs: |t| if t == Tier::Thorough { 1_500_000 } else { 120_000 },
     enumerated: |_| 0,
     run,
-    rule: "a session with 1-4 outstanding get requests (each awaited in its own task, replies in order or permuted); the server hello or the reply to one request is replaced by a mutation of the valid message: truncation at any offset, splice with another message, 1-3 byte flips, duplicated region, huge / negative message-id, invalid UTF-8, wrong namespace, 64 KiB (thorough: 4 MiB) of text, random bytes, empty message, deep nesting, huge numbers, two roots, duplicate attributes, DOCTYPE + comments. The same mutations are applied to running / ephemeral configuration documents fed to the agent's readers. Non-trivial = a mutation was delivered; distinct = distinct event-log hash",
+    rule: "a session with 1-4 outstanding get requests (each awaited in its own task, replies in order or permuted); the server hello or the reply to one request is replaced by a mutation of the valid message: truncation at any offset, splice with another message, 1-3 byte flips, duplicated region, huge / negative message-id, invalid UTF-8, wrong namespace, 64 KiB (thorough: 4 MiB) of text, random bytes, empty message, deep nesting, huge numbers, two roots, duplicate attributes, DOCTYPE + comments, the text of one leaf or the value of one attribute replaced by a generated value (0-140 ASCII bytes followed by 0-59 repetitions of a 2-, 3- or 4-byte character, blank, entity or character reference). One reply in three starts from a complete <rpc-error> reply so that the error readers are reached. The same mutations are applied to running / ephemeral configuration documents fed to the agent's readers. Non-trivial = a mutation was delivered; distinct = distinct event-log hash",
     components: &[
         ("netconf session + message readers", "real"),
         ("junos-agent policies/fetch.rs readers via the verif facade", "real"),
